@@ -16,7 +16,7 @@ impl Cfg {
     pub fn from_json(v: &serde_json::Value) -> Cfg { Cfg { lowrank: v["lowrank"].as_bool().unwrap(), dim: v["dim"].as_u64().unwrap() as usize, eps: v["eps"].as_f64().unwrap(), len: v["len"].as_f64().unwrap(), freq: v["freq"].as_f64().unwrap(), dynamic: v["dynamic"].as_bool().unwrap(), kind: v["kind"].as_u64().unwrap() as u8, num_tune: v["num_tune"].as_u64().unwrap(), num_draws: v["num_draws"].as_u64().unwrap(), faults: v["faults"].as_array().unwrap().iter().map(|x| x.as_u64().unwrap()).collect(), seed: v["seed"].as_u64().unwrap() } }
 }
 
-pub struct DrawRec { pub outs: Vec<u8>, pub num_steps: u64, pub diverging: bool, pub avg_step: f64, pub moved: bool, pub vnorm: f64, pub micro: bool, pub step_size: f64 }
+pub struct DrawRec { pub outs: Vec<u8>, pub num_steps: u64, pub diverging: bool, pub avg_step: f64, pub moved: bool, pub vnorm: f64, pub micro: bool, pub step_size: f64, pub v_same: bool }
 
 pub fn run(cfg: &Cfg) -> Result<Vec<DrawRec>, String> {
     macro_rules! go { ($s:expr) => {{
@@ -35,6 +35,7 @@ pub fn run(cfg: &Cfg) -> Result<Vec<DrawRec>, String> {
         let mut prev: Vec<f64> = vec![0.3; cfg.dim];
         for d in 0..(cfg.num_tune + cfg.num_draws) {
             let first = log.lock().unwrap().len();
+            let [_, _, _, _, v_before] = chain.verif_state_vectors();
             let (pos, _exp, mut stats, progress) = chain.expanded_draw().map_err(|e| format!("draw {d}: {e}"))?;
             let avg_step = { let dims = { let m = chain.math(); StatsDims::from(&*m) };
                 stats.get_all(&dims).into_iter().find_map(|(n, v)| match (n, v) { ("average_step_size", Some(Value::ScalarF64(x))) => Some(x), _ => None }).unwrap_or(f64::NAN) };
@@ -43,7 +44,7 @@ pub fn run(cfg: &Cfg) -> Result<Vec<DrawRec>, String> {
             let vnorm = v.iter().map(|x| x * x).sum::<f64>().sqrt();
             let micro = match cfg.kind { 0 => true, 1 => false, _ => d >= switch_draw };
             let moved = pos.iter().zip(prev.iter()).any(|(a, b)| a.to_bits() != b.to_bits());
-            out.push(DrawRec { outs, num_steps: progress.num_steps, diverging: progress.diverging, avg_step, moved, vnorm, micro, step_size: progress.step_size });
+            out.push(DrawRec { outs, num_steps: progress.num_steps, diverging: progress.diverging, avg_step, moved, vnorm, micro, step_size: progress.step_size, v_same: v.iter().zip(v_before.iter()).all(|(a, b)| a.to_bits() == b.to_bits()) });
             prev = pos.to_vec();
         }
         Ok(out)
@@ -64,6 +65,8 @@ pub fn oracle(cfg: &Cfg, recs: &[DrawRec]) -> Option<(String, String)> {
             let want = n as f64 * r.step_size;
             if !((covered - want).abs() <= 1e-9 * want) { return Some(("mclmc.time_covered".into(), format!("draw {d}: integrated time {covered} (average_step_size {} x {} steps), expected {n} base steps x {} = {want}; leapfrog outcomes {:?}", r.avg_step, r.num_steps, r.step_size, r.outs))); }
         } else if r.moved { return Some(("mclmc.divergent_moved".into(), format!("draw {d}: divergent draw changed the position"))); }
+        // a divergent draw refreshes the momentum: the state handed to the next draw must not carry the momentum the failed draw started with
+        else if r.v_same { return Some(("mclmc.divergent_momentum_kept".into(), format!("draw {d}: divergent draw left the momentum it started with in place (no refresh)"))); }
         if r.outs.len() as u64 != r.num_steps + ndiv as u64 { return Some(("mclmc.evals".into(), format!("draw {d}: {} density evaluations for {} steps and {ndiv} failed leapfrogs", r.outs.len(), r.num_steps))); }
     }
     None
